@@ -10,6 +10,8 @@
         P<n>   construct n unrelated Parents (ids only)            -> fills / evicts the process-wide Parent cache
         T:s / T:e  construct unrelated Parents whose sequence types are spelled as plain strings / as enum members
         W      build a complete twin and drop it                   -> the object's own Parents are now cache hits
+        S      build near-identical siblings (strands flipped / one base changed / chunk moved / qualifier changed), ask each
+               of them every question of this history, drop them
         X      Parent.cache_clear() and _unique_value_or_none.cache_clear()
       what:   type(A!=B)      the Python type of the answer differs from the fresh twin's (got A, fresh B)
               exc(E)          raised E where the fresh twin answers / raises something else
@@ -230,10 +232,9 @@ class Ctx:
     def __init__(self, recipe, obj):
         self.recipe = recipe
         d = recipe.data
-        self.twin = recipe.build()
         self.pos = d["pos"]
         self.window = d["window"]
-        self.operands = {"twin": self.twin}
+        self.operands = {}
         if recipe.kind in ("single", "compound"):
             for i, o in enumerate(recipe.other_locations()):
                 self.operands[f"o{i}"] = o
@@ -242,6 +243,14 @@ class Ctx:
         if recipe.kind == "sequence":
             self.operands["other"] = Sequence("ACGTN", Alphabet.NT_EXTENDED_GAPPED)
         self.chrom_seq = Sequence(d["genome"], Alphabet.NT_EXTENDED_GAPPED, id=d["chrom"], type=recipe._t("CHROMOSOME"))
+
+    @property
+    def twin(self):
+        """built when first needed (possibly long after the object: its Parents may then be different objects), then
+        kept as an operand"""
+        if "twin" not in self.operands:
+            self.operands["twin"] = self.recipe.build()
+        return self.operands["twin"]
 
     def chunk2(self):
         return self.recipe.chunk_parent(tuple(self.recipe.data["chunk2"]))
@@ -579,10 +588,16 @@ def snapshot(obj, ctx):
                 for ch in _children(o)]
         out[name] = rec
     try:
-        out["eq_twin"] = f"bool:{obj == ctx.twin}"
+        out["eq_twin"] = f"bool:{obj == ctx.recipe.build()}"      # a twin built NOW, whatever the caches hold
     except Exception as e:  # noqa
         out["eq_twin"] = "exc:" + type(e).__name__
     return out
+
+
+def snap_diff(a, b):
+    """differences over the operands present in both snapshots (the twin operand exists only once it was needed)"""
+    common = [k for k in a if k in b]
+    return diff({k: a[k] for k in common}, {k: b[k] for k in common})
 
 
 def _children(o):
@@ -620,7 +635,7 @@ def _mut_label(paths, before=None, after=None):
     return f"mut({_short(paths[0])})"
 
 
-def filler(tok, recipe, seed, step):
+def filler(tok, recipe, seed, step, table=None, tokens=()):
     if tok[0] == "P" and tok[1:].isdigit():
         for i in range(int(tok[1:])):
             Parent(id=f"fill{seed}_{step}_{i}")
@@ -641,6 +656,19 @@ def filler(tok, recipe, seed, step):
     if tok == "W":
         recipe.build()
         return True
+    if tok == "S":
+        for sib in recipe.siblings():
+            try:
+                so = sib.build()
+            except Exception:  # noqa  (a sibling may be unconstructible, e.g. frames no longer fit)
+                continue
+            # ... and ask the sibling everything this history asks (answers dropped): whatever is memoised across
+            # objects now holds the SIBLING's values
+            sc = Ctx(sib, so)
+            for tk in dict.fromkeys(tokens):
+                if table is not None and tk in table:
+                    ask(table[tk], so, sc)
+        return True
     if tok == "X":
         cold()
         return True
@@ -648,7 +676,7 @@ def filler(tok, recipe, seed, step):
 
 
 def is_filler(tok):
-    return tok in ("T:s", "T:e", "W", "X") or (tok[0] == "P" and tok[1:].isdigit())
+    return tok in ("T:s", "T:e", "W", "X", "S") or (tok[0] == "P" and tok[1:].isdigit())
 
 
 def run_history(kindmode, seed, tokens, snap_every=True):
@@ -672,27 +700,29 @@ def run_history(kindmode, seed, tokens, snap_every=True):
     obj = ctx = snap0 = None
     items = []
     for step, tok in enumerate(tokens):
-        if filler(tok, recipe, seed, step):
+        if filler(tok, recipe, seed, step, table, tokens):
             continue
         if obj is None:
             obj = recipe.build()
             ctx = Ctx(recipe, obj)
             pristine = recipe.build()
-            snap0 = snapshot(pristine, Ctx(recipe, None))   # the pristine reading (twin, untouched operands)
+            pctx = Ctx(recipe, pristine)
+            pctx.twin                                       # noqa: the pristine reading includes an untouched twin operand
+            snap0 = snapshot(pristine, pctx)
             quals0 = _qual_sets(pristine, "", {})
         got = ask(table[tok], obj, ctx)
         what = classify(got, ref[tok])
         if what:
             items.append((tok, step, what))
         if snap_every and (is_export(tok) or rng.random() < 0.25):
-            ds = diff(snapshot(obj, ctx), snap0)
+            ds = snap_diff(snapshot(obj, ctx), snap0)
             if ds:
                 items.append((tok, step, _mut_label(ds, quals0, _qual_sets(obj, "", {}))))
                 if not all(p.endswith("#spelling") for p in ds):
                     break   # the object is no longer the object the references were computed for
     else:
         if obj is not None:
-            ds = diff(snapshot(obj, ctx), snap0)
+            ds = snap_diff(snapshot(obj, ctx), snap0)
             if ds:
                 items.append(("end", len(tokens), _mut_label(ds, quals0, _qual_sets(obj, "", {}))))
     if not items:
@@ -795,12 +825,32 @@ def op_lazyloc(t):
 def op_pstrand(t):
     sa = None if t[1] == "N" else G.STRANDS[t[1]]
     if t[2] == "N":
-        loc, n = None, int(t[3])
+        ls, ln, n = None, None, int(t[3])
     else:
-        loc, n = SingleInterval(0, int(t[3]), G.STRANDS[t[2]]), int(t[4])
-    p = Parent(strand=sa, location=loc)
+        ls, ln, n = G.STRANDS[t[2]], int(t[3]), int(t[4])
     sym = {None: "N", Strand.PLUS: "+", Strand.MINUS: "-", Strand.UNSTRANDED: "."}
-    return "ok " + " ".join(sym[p.strand] for _ in range(n))
+
+    def ask():
+        try:
+            p = Parent(strand=sa, location=None if ls is None else SingleInterval(0, ln, ls))
+        except Exception as e:  # noqa
+            return "err:" + exc_token(e).split()[1]
+        return " ".join(sym[p.strand] for _ in range(n))
+
+    cold()
+    fresh = ask()
+    cold()
+    # Parents differing from the one asked about in ONE strand (explicit strand / location strand)
+    for a in (None, Strand.PLUS, Strand.MINUS, Strand.UNSTRANDED):
+        for b in (None, Strand.PLUS, Strand.MINUS, Strand.UNSTRANDED):
+            if (a is sa) != (b is ls):
+                try:
+                    Parent(strand=a, location=None if b is None else SingleInterval(0, ln or 0, b)).strand
+                except Exception:  # noqa
+                    pass
+    warm = ask()
+    cold()
+    return f"ok {fresh} / {warm}"
 
 
 def build_cds_literal(t, i):
